@@ -955,6 +955,7 @@ func regSeq(from, n int) string {
 /**************** generator ****************/
 
 type regGen struct {
+	fb      bool // the router has HandleFallbackRoute
 	r       *Rand
 	ops     []string
 	nextID  int
@@ -1145,6 +1146,15 @@ func (g *regGen) likePrefix(id int) (path string, static, ok bool) {
 	return path, static, true
 }
 
+// fbBit: one router in three is built with HandleFallbackRoute (option bit 4)
+func (g *regGen) fbBit() int {
+	if g.r.Chance(1, 3) {
+		g.fb = true
+		return 4
+	}
+	return 0
+}
+
 func (g *regGen) route() {
 	g.nextID++
 	id := g.nextID
@@ -1185,6 +1195,13 @@ func (g *regGen) route() {
 	case "any":
 		methods = rux.AnyMethods()
 		pre = g.useCalls(1, 1, false)
+		// on a fallback-enabled router: `Any("/*", …)` INSIDE a group is the route `<prefix>/*`, with the group's chain
+		if g.fb && len(g.pfxs) > 0 && g.r.Chance(2, 3) {
+			if st := regStored(strings.Join(g.pfxs, ""), "/*"); !g.stored[st] {
+				g.stored[st] = true
+				path, static, like = "/*", true, false
+			}
+		}
 	}
 	if kind != "any" {
 		ms = strings.Join(methods, ",")
@@ -1345,10 +1362,10 @@ func (regEngine) Gen(r *Rand, tier string) Case {
 	if r.Chance(1, 4) {
 		// a router with a route cache (tiny ones evict all the time); request lines are then repeated
 		g.caching = true
-		g.ops = append(g.ops, fmt.Sprintf("new %d %d", r.Intn(2), r.PickInt([]int{1, 2, 3, 1000})))
+		g.ops = append(g.ops, fmt.Sprintf("new %d %d", r.Intn(2)|g.fbBit(), r.PickInt([]int{1, 2, 3, 1000})))
 		tag = "caching"
 	} else {
-		g.ops = append(g.ops, fmt.Sprintf("new %d", r.Intn(2)))
+		g.ops = append(g.ops, fmt.Sprintf("new %d", r.Intn(2)|g.fbBit()))
 	}
 	if r.Chance(1, 6) {
 		// a shared caller array; arguments are taken from its END only (no spare capacity behind them)
@@ -1409,6 +1426,11 @@ func regOptMask(s string) int {
 func regApplyOpts(e *regRun, f []string) *regRun {
 	if len(f) >= 2 && regOptMask(f[1])&2 != 0 {
 		e.r.WithOptions(rux.StrictLastSlash)
+	}
+	if len(f) >= 2 && regOptMask(f[1])&4 != 0 {
+		// HandleFallbackRoute: only a TOP-LEVEL `/*` route is a fallback; the generator registers `/*` inside groups only
+		// (an ordinary static route `<prefix>/*` there), so the model needs no fallback step
+		e.r.WithOptions(rux.HandleFallbackRoute)
 	}
 	return e
 }
